@@ -34,12 +34,20 @@ def ingest(wt, sid, prop):
         sys.exit("no change in worktree")
     t = sh([PY, "-m", "pytest", "-q", "-p", "no:cacheprovider", "tests"], cwd=wt, env=env)
     tests_ok = t.returncode == 0
-    d1 = sh([PY, "demo.py"], cwd=wt, env=env, timeout=600)
-    sh(["git", "-C", wt, "stash"])
+    d1 = sh([PY, "demo.py"], cwd=wt, env=env, timeout=900)
+    # NOT git stash: refs/stash is shared by all worktrees of one repository
+    pf = os.path.join(tempfile.gettempdir(), f"ingest-{sid}.patch")
+    with open(pf, "w") as fh:
+        fh.write(patch)
+    sh(["git", "-C", wt, "reset", "-q"])
+    r = sh(["git", "-C", wt, "apply", "-R", pf])
+    if r.returncode != 0:
+        sys.exit("could not reverse the change: " + r.stderr)
     try:
-        d0 = sh([PY, "demo.py"], cwd=wt, env=env, timeout=600)
+        d0 = sh([PY, "demo.py"], cwd=wt, env=env, timeout=900)
     finally:
-        sh(["git", "-C", wt, "stash", "pop"])
+        sh(["git", "-C", wt, "apply", pf])
+        os.unlink(pf)
     print(f"tests_pass_with_change={tests_ok} ({t.stdout.strip().splitlines()[-1] if t.stdout.strip() else ''}) demo_with_change_exit={d1.returncode} demo_without_exit={d0.returncode}")
     ok = tests_ok and d1.returncode != 0 and d0.returncode == 0
     if not ok:
